@@ -36,6 +36,8 @@ def _start(ctx: Ctx, attach) -> None:
     w = ctx.w
     ctx.info["base_ind"] = len(w.ind_log)  # what a prelude transaction logged is not the run's own
     ctx.info["base_fault"] = len(w.fault_log)
+    ctx.info["base_lib_excs"] = dict(w.lib_excs)
+    ctx.info["base_internal"] = len(w.internal_errors)
     msgs, oid = build_msgs(w.cfg.msgs)
     ctx.oid = oid
     ctx.info["msgs"] = msgs
@@ -49,26 +51,56 @@ def _start(ctx: Ctx, attach) -> None:
 # ---------------------------------------------------------------------------------------------
 
 
-def prelude(w, same_request: bool = False, idle_ms: int = 0, mode=None, closure=None, msgs=None) -> bool:
-    """An earlier, fault-free, complete transaction on the same handler objects and the same filestore (not
-    judged: monitors are attached afterwards). With same_request the very request of the run is executed
-    (same path, size and content), otherwise the file goes to dst/prev.bin."""
+def prelude(w, same_request: bool = False, idle_ms: int = 0, mode=None, closure=None, msgs=None,
+            cancel_after: int | None = None, other_content: bool = False, narrow_dest_id: bool = False) -> bool:
+    """An earlier transaction on the same handler objects and the same filestore over a perfect link (not judged:
+    monitors are attached afterwards). same_request: the very request of the run is executed (same path, size
+    and content), otherwise the file goes to dst/prev.bin. other_content: a different file of the SAME size is sent
+    (src/prev.bin). cancel_after: the sending user cancels it after that many handler calls (it still runs to its
+    end). narrow_dest_id: the request names the destination with a 1-byte id (smaller PDU headers than the run's)."""
     c = w.cfg
     if c.metadata_only:
         return False
     req = w.put_request_obj(msgs)
     if not same_request:
         req.dest_file = Path("dst/prev.bin")
+    if other_content:
+        w.vfs_a.h_put("src/prev.bin", bytes((b ^ 0x5A) for b in w.src_bytes))
+        req.source_file = Path("src/prev.bin")
     if mode is not None:
         req.trans_mode = mode
     if closure is not None:
         req.closure_requested = closure
+    if narrow_dest_id and c.idw_b > 1:
+        req.destination_id = UnsignedByteField(w.b.eid.value, 1)
     saved = (w.link.enabled, w.link.hook, dict(w.link.partition), w.pacing, w.fs_fault)
     w.link.enabled, w.link.hook, w.pacing, w.fs_fault = set(), None, "regular", None
     w.call(w.a, "src", "put", arg=req)
     w.start_polls()
+    if cancel_after is not None:
+        c0 = w.calls_n
+        while w.calls_n - c0 < cancel_after and w.step():
+            pass
+        h = w.a.handlers["src"]
+        if h.transaction_id is not None and not h.num_packets_ready:
+            w.call(w.a, "src", "cancel", arg=h.transaction_id)
+            w.probe("prelude_cancelled")
     w.run()
     ok = w.all_idle()
+    if not ok:
+        # e.g. a cancel request issued after the Finished PDU was accepted leaves the sender waiting for a second
+        # Finished PDU that a receiver which already closed the transaction never sends (one of the waits the
+        # documentation lists as unimplemented): the user gives up on the old transaction through the public reset()
+        for ent in (w.a, w.b):
+            for hk in ("src", "dst"):
+                h = ent.handlers[hk]
+                if h.state.name != "IDLE":
+                    h.reset()
+                    while h.get_next_packet() is not None:
+                        pass
+                    ent.drained[hk] = True
+                    ent.note_state(hk, type("S", (), {"busy": False, "tid": None})())
+                    w.probe("prelude_reset")
     w.heap.clear()
     w.pending = 0
     w.polls_stopped = True
@@ -78,6 +110,29 @@ def prelude(w, same_request: bool = False, idle_ms: int = 0, mode=None, closure=
         w.clock.now_ms += idle_ms
     w.probe("prelude_transaction")
     return ok
+
+
+def perturb_irrelevant_config(w, t) -> None:
+    """Swarm dimension: configuration that must not matter for the transfer a -> b is varied per run. The
+    receiver's MIB entry for the sender carries other SENDING defaults (checksum type, mode, closure, segment
+    length: b never sends), and the sender's fault handler table carries other codes for conditions only a
+    receiver declares. Draws a fixed number of tape entries."""
+    from spacepackets.cfdp import ChecksumType, ConditionCode
+    from spacepackets.cfdp.defs import FaultHandlerCode
+
+    sel = t.choose(4, "perturb receiver mib")
+    ck = [ChecksumType.CRC_32, ChecksumType.CRC_32C, ChecksumType.MODULAR, ChecksumType.NULL_CHECKSUM][t.choose(4, "receiver mib crc type")]
+    if sel in (1, 3):
+        w.b.rcfg.crc_type = ck
+        w.b.rcfg.closure_requested = not w.b.rcfg.closure_requested
+        w.b.rcfg.max_file_segment_len = 3
+        w.probe("perturbed_receiver_mib")
+    cond = [ConditionCode.FILE_CHECKSUM_FAILURE, ConditionCode.FILE_SIZE_ERROR, ConditionCode.NAK_LIMIT_REACHED, ConditionCode.FILESTORE_REJECTION][
+        t.choose(4, "sender table condition")]
+    code = [FaultHandlerCode.NOTICE_OF_CANCELLATION, FaultHandlerCode.ABANDON_TRANSACTION, FaultHandlerCode.IGNORE_ERROR][t.choose(3, "sender table code")]
+    if sel in (2, 3):
+        w.a.fh.set_handler(cond, code)
+        w.probe("perturbed_sender_fault_table")
 
 
 def faultfree(t, attach=None, force=None) -> Ctx:
@@ -93,10 +148,15 @@ def faultfree(t, attach=None, force=None) -> Ctx:
     w.max_t = 10_000_000
     # a quarter of the runs: the handlers already completed a transfer (any mode / closure), followed by idle time
     # that may exceed every timer interval (the clock is virtual)
+    perturb_irrelevant_config(w, t)
     if t.choose(4, "prelude") == 3:
-        prelude(w, same_request=bool(t.choose(2, "prelude same request")), idle_ms=[0, 5000, 200_000_000][t.choose(3, "prelude idle")],
+        same = bool(t.choose(2, "prelude same request"))
+        prelude(w, same_request=same, idle_ms=[0, 5000, 200_000_000][t.choose(3, "prelude idle")],
                 mode=[None, ACK, UNACK][t.choose(3, "prelude mode")], closure=[None, True, False][t.choose(3, "prelude closure")],
-                msgs=build_msgs(t.weighted([3, 1, 2, 1, 1, 1, 1], "prelude msgs"))[0])
+                msgs=build_msgs(t.weighted([3, 1, 2, 1, 1, 1, 1], "prelude msgs"))[0],
+                cancel_after=[None, None, None, 2 + t.choose(12, "prelude cancel after")][t.choose(4, "prelude cancelled")],
+                other_content=(not same) and t.choose(2, "prelude other content") == 1,
+                narrow_dest_id=t.choose(3, "prelude narrow dest id") == 2)
         w.max_events += w.nev
         w.max_t += w.clock.t
     _start(ctx, attach)
@@ -133,11 +193,16 @@ def bounded_faults(t, attach=None, force=None) -> Ctx:
     if t.choose(3, "pacing") == 2:
         w.pacing = "random"
     ctx.info["K"] = K
-    # a fifth of the runs: the handlers already completed a transfer and were idle for a while
+    perturb_irrelevant_config(w, t)
+    # a fifth of the runs: the handlers already completed (or cancelled) a transfer and were idle for a while
     if t.choose(5, "prelude") == 4:
         saved_budget = w.link.budget
-        prelude(w, same_request=bool(t.choose(2, "prelude same request")), idle_ms=[0, 1500, 30000][t.choose(3, "prelude idle")],
-                mode=[None, ACK, UNACK][t.choose(3, "prelude mode")], closure=[None, True, False][t.choose(3, "prelude closure")])
+        same = bool(t.choose(2, "prelude same request"))
+        prelude(w, same_request=same, idle_ms=[0, 1500, 30000][t.choose(3, "prelude idle")],
+                mode=[None, ACK, UNACK][t.choose(3, "prelude mode")], closure=[None, True, False][t.choose(3, "prelude closure")],
+                cancel_after=[None, None, 2 + t.choose(12, "prelude cancel after")][t.choose(3, "prelude cancelled")],
+                other_content=(not same) and t.choose(2, "prelude other content") == 1,
+                narrow_dest_id=t.choose(3, "prelude narrow dest id") == 2)
         w.link.budget = saved_budget
     longest = max(cfg.ack_s, cfg.nak_s)
     bound_ms = int((2 * cfg.ack_lim + cfg.nak_lim + 6) * longest * 1000) + max(w.link.delays_ms) + 1000
@@ -181,8 +246,10 @@ def chaos(t, attach=None, force=None, allow_extra=True, pre=None) -> Ctx:
     ctx = Ctx(w, "chaos_weakck" if weak_ck else "chaos")
     # a fifth of the runs: the same file was already delivered once to the same path through the same handler and
     # filestore objects (whatever they remember of it must not vouch for the second delivery)
+    perturb_irrelevant_config(w, t)
     if t.choose(5, "prelude") == 4:
-        prelude(w, same_request=True, idle_ms=[0, 1500, 9000][t.choose(3, "prelude idle")])
+        prelude(w, same_request=True, idle_ms=[0, 1500, 9000][t.choose(3, "prelude idle")],
+                cancel_after=[None, None, 2 + t.choose(12, "prelude cancel after")][t.choose(3, "prelude cancelled")])
     kinds = {"drop", "dup", "delay"}
     mask = t.choose(8, "kind mask")
     en = {k for i, k in enumerate(("drop", "dup", "delay")) if not mask & (1 << i)} or kinds
@@ -363,20 +430,15 @@ def cancel(t, attach=None, force=None) -> Ctx:
     w.max_t = 200_000
     # in a quarter of the runs the handlers have already completed a transaction (not judged); wrong-id cancel
     # requests then name that finished transaction
-    if t.choose(4, "prelude transaction") == 3:
-        req = w.put_request_obj(None)
-        req.dest_file = Path("dst/prev.bin")
-        if not cfg.metadata_only:
-            w.call(w.a, "src", "put", arg=req)
-            w.start_polls()
-            w.run()
-            prev = w.a.seqp.issued[-1] if w.a.seqp.issued else None
-            if prev is not None and w.all_idle():
-                trig.prev_tid = TransactionId(UnsignedByteField(1, cfg.idw), UnsignedByteField(prev, cfg.seqw))
-            w.heap.clear()
-            w.pending = 0
-            w.polls_stopped = True
-            w.probe("prelude_transaction")
+    perturb_irrelevant_config(w, t)
+    if t.choose(4, "prelude transaction") == 3 and not cfg.metadata_only:
+        saved = (w.link.enabled, w.link.rate, w.link.budget)
+        # half of the earlier transactions were cancelled by the sending user themselves
+        ok = prelude(w, cancel_after=[None, 2 + t.choose(12, "prelude cancel after")][t.choose(2, "prelude cancelled")])
+        w.link.enabled, w.link.rate, w.link.budget = saved
+        prev = w.a.seqp.issued[-1] if w.a.seqp.issued else None
+        if prev is not None and ok:
+            trig.prev_tid = TransactionId(UnsignedByteField(1, cfg.idw), UnsignedByteField(prev, cfg.seqw))
     w.monitors.append(trig)
     _start(ctx, attach)
     ctx.reason = w.run()
